@@ -34,7 +34,7 @@ CONSTANTS Users,      \* storable user names
           ManVictim,  \* manners of an attempt while the victim is connected: client id own / the victim's, with / without
                       \* a retained will message
           PreKinds,   \* packets sent without authentication
-          PrePhases,  \* \subseteq {"before","afterfail","pipelined"}
+          PrePhases,  \* \subseteq {"before","afterfail","pipelined","burst"}  (burst: behind a PINGREQ in one write, no CONNECT)
           PreVers,    \* codec version of the unauthenticated packets \subseteq {"v31","v311","v5"}
           AfterTakeover, \* BOOLEAN: keep exploring from the states reached by taking the victim's session over
                       \* (FALSE: only Restart leaves them; they repeat the victim-less states)
